@@ -32,6 +32,8 @@ def obligations(tier):
                     clause="selecting one child to descend into never panics, for every sibling list including the empty one (`[]`)"))
     out.append(dict(engine="verus", unit="completion", function="FindVisitor::visit_pattern::Tuple", name="C20/completion/FindVisitor_visit_pattern_tuple", source=COMP + "::FindVisitor::visit_pattern (arm Pattern::Tuple)",
                     clause="descending into a tuple pattern never panics, for every element list including the empty one (the unit pattern `()`)"))
+    out.append(dict(engine="verus", unit="completion", function="FindVisitor::visit_pattern::record_field_span", name="C20/completion/record_pattern_field_span", source=COMP + "::FindVisitor::visit_pattern (arm Pattern::Record, span closure)",
+                    clause="a record-pattern field `name = pattern` occupies the range from its label to the end of its pattern (a cursor inside the nested pattern selects the field), a shorthand field its label"))
     out.append(dict(engine="verus", unit="completion", function="Suggest::on_pattern::As", name="C20/completion/Suggest_on_pattern_as", source=COMP + "::Suggest::on_pattern (arm Pattern::As)",
                     clause="binding the name of an as-pattern never panics, also when the pattern under it does not type check (only the total try_type_of may be used: env_type_of has the precondition `well typed`)"))
     ns = [1, 2, 3] if tier == "quick" else [1, 2, 3, 4]
